@@ -60,6 +60,7 @@ def cmd_check(args):
     pid = args.property.upper()
     tier = args.tier or os.environ.get('VERIF_TIER') or 'quick'
     seed = int(os.environ.get('VERIF_SEED', '0') or 0)
+    os.environ['VERIF_TIER'] = tier
     t0 = time.time()
     mod = _module(pid)
     try:
